@@ -4,7 +4,9 @@
     lease armed ([lease_inv]).
 
     The proof is an invariant over the run ([run_inv]); the library is Proofs/ClientBasic.v. The server is used only
-    through [srv_facts_hold]. *)
+    through [srv_facts_hold]. An Unlock run in steps (IUnlockBegin / IUnlockSend / IUnlockEnd) gives the hold up when
+    it BEGINS ([h_unl], [P_unlock_begin]); its later steps concern a hold that is not the tracked one
+    ([P_unlock_send], [P_unlock_end]). *)
 From Coq Require Import Lia ZifyBool ZifyNat ZifyN.
 From Ldlm Require Import Model.Base Model.Err Model.Seq Model.Client Gen.Consts
   Proofs.ClientSrvDefs Proofs.ClientSrv Proofs.ClientInvDefs Proofs.ClientP Proofs.ClientBasic.
@@ -419,6 +421,9 @@ Proof.
     destruct (cs_crashed _); [congruence|]. change (cs_closed (emit ?e ?s)) with (cs_closed s).
     destruct (mark_unl_other j (unlock_rpc j h (unlock_stop cc (h_name h) st))) as (_ & _ & _ & -> & _).
     destruct (unlock_rpc_spec j h (unlock_stop cc (h_name h) st)) as (s2 & _ & _ & _ & _ & -> & _). congruence.
+  - destruct (do_unlock_begin_other cc j st) as (_ & -> & _). done.
+  - by rewrite (rf_closed _ _ _ _ (do_unlock_send_frame false (λ _, False) j st)).
+  - destruct (do_unlock_end_other j st) as (_ & _ & _ & _ & -> & _). done.
   - rewrite do_close_eq. cbv zeta. destruct (cs_crashed _); [|done].
     rewrite (rf_closed _ _ _ _ (stop_all_frame false (close_targets st) st)). done.
   - by rewrite (rf_closed _ _ _ _ (do_advance_frame dt st)).
@@ -565,14 +570,47 @@ Proof.
 Qed.
 
 (** Unlock *)
+
+(** the Stop() of an Unlock of another granted, not yet unlocked hold i does not hit renewer j: outside F-RENEWMAP the
+    two holds have different names, and renewMap files renewer j under the name of hold j *)
+Lemma unlock_other_name cc j h i hi st : no_twin st → Pre cc j h st → i ≠ j →
+  cs_holds st !! i = Some hi → h_locked hi = true → h_unl hi = false →
+  h_name hi ≠ h_name h ∧ cs_map st !! h_name hi ≠ Some j.
+Proof.
+  intros N (B & _ & _ & Hh & Hl & Hu & HT & _) Hij Hhi Hli Hui.
+  assert (h_name hi ≠ h_name h) as Hname.
+  { intros E. destruct (N i j hi h Hij Hhi Hh E Hli Hl Hui Hu) as [_ E0].
+    destruct (ts_facts _ HT) as (_ & _ & _ & ?). lia. }
+  split; [done|]. intros Hm. destruct (b_map _ _ B _ _ Hm) as (h0 & Hh0 & E & _). congruence.
+Qed.
+
+(** the Unlock RPC of another hold i (its key is [key_of i]) keeps the lease of hold j on the server *)
+Lemma unlock_rpc_keep i hi st1 n j : nowait st1 → h_key hi = key_of i → i ≠ j →
+  cs_crashed (unlock_rpc i hi st1) = cs_crashed st1 ∧ cs_holds (unlock_rpc i hi st1) = cs_holds st1 ∧
+  srv_keep n (key_of j) (cs_srv st1) (cs_srv (unlock_rpc i hi st1)).
+Proof.
+  intros Hw Hk Hij.
+  destruct (unlock_rpc_spec i hi st1) as (s2 & E1 & E2 & _ & E4 & _ & _ & _ & _ & _ & Hf).
+  destruct (Hf Hw) as (G1 & _ & _ & G4 & G5). split_and!; [done|done|]. rewrite E1.
+  assert ((n, key_of j) ≠ (h_name hi, h_key hi)) as Hne.
+  { rewrite Hk. intros E. assert (key_of j = key_of i) as E'%key_of_inj by congruence. congruence. }
+  split_and!; [by apply G4|by apply G5|done].
+Qed.
+
+Lemma misuse_unlock_unl st i hi (it : item) : (it = IUnlock i ∨ it = IUnlockBegin i) →
+  misuse_at st it = false → cs_holds st !! i = Some hi → h_unl hi = false.
+Proof.
+  intros Hit Hmis Hhi. unfold misuse_at in Hmis. apply orb_false_elim in Hmis as [_ Hmis].
+  destruct Hit as [-> | ->]; by rewrite Hhi in Hmis.
+Qed.
+
 Lemma P_unlock cc j h i st : cc_noauto cc = false → no_twin st → Pre cc j h st → misuse_at st (IUnlock i) = false →
   Post j (h_name h) (h_T h) (do_unlock cc i st).
 Proof.
   intros Hna N HP Hmis. pose proof HP as (B & Hc & Hcl & Hh & Hl & Hu & HT & r & Hr & L).
   rewrite do_unlock_eq. destruct (cs_holds st !! i) as [hi|] eqn:Hhi; [|by eapply Post_same].
   destruct (h_locked hi) eqn:Hli; [|by eapply Post_same]. cbn [negb]. cbv zeta.
-  assert (h_unl hi = false) as Hui.
-  { unfold misuse_at in Hmis. rewrite Hhi in Hmis. by apply orb_false_elim in Hmis as [_ ?]. }
+  assert (h_unl hi = false) as Hui by (apply (misuse_unlock_unl st i hi (IUnlock i)); auto).
   pose proof (unlock_stop_frame false cc (h_name hi) st) as F1.
   pose proof (unlock_stop_srv cc (h_name hi) st) as S1.
   pose proof (unlock_stop_crashed cc (h_name hi) st) as C1.
@@ -591,24 +629,70 @@ Proof.
       split_and!; rewrite ?Hc'; try done. intros _. right. right.
       change (cs_holds (emit ?e ?s)) with (cs_holds s). rewrite mark_unl_holds, decide_True, E2 by done.
       destruct (frame_lookup _ _ _ _ j h F1 Hh) as (h1 & -> & _). cbn. eauto.
-  - assert (h_name hi ≠ h_name h) as Hname.
-    { intros E. destruct (N i j hi h Hij Hhi Hh E Hli Hl Hui Hu) as [_ E0].
-      destruct (ts_facts _ HT) as (_ & _ & _ & ?). lia. }
-    assert (¬ (cc_noauto cc = false ∧ cs_map st !! h_name hi = Some j)) as HnJ.
-    { intros [_ Hm]. destruct (b_map _ _ B _ _ Hm) as (h0 & Hh0 & E & _). congruence. }
+  - destruct (unlock_other_name cc j h i hi st N HP Hij Hhi Hli Hui) as [Hname Hmj].
+    assert (¬ (cc_noauto cc = false ∧ cs_map st !! h_name hi = Some j)) as HnJ by (by intros [_ Hm]).
     assert (cs_holds st1 !! j = cs_holds st !! j) as Eh1 by apply (rf_others _ _ _ _ F1 j HnJ).
     destruct (cs_crashed st1) as [c|] eqn:Hc1.
     + destruct (C1 c Hc eq_refl) as (x & rx & _ & Hm & -> & _).
       eapply Post_keep; try done; rewrite ?Hc1; try done; [|by rewrite S1].
       intros [= ->]. by apply HnJ.
     + set (st2 := unlock_rpc i hi st1).
-      destruct (unlock_rpc_spec i hi st1) as (s2 & E1 & E2 & _ & E4 & _ & _ & _ & _ & _ & Hf). fold st2 in E1, E2, E4.
+      destruct (unlock_rpc_keep i hi st1 (h_name h) j) as (E4 & E2 & K); [unfold nowait; rewrite S1; apply B|by apply (b_key _ _ B)|done|].
+      fold st2 in E2, E4, K. rewrite S1 in K.
       destruct (mark_unl_other i st2) as (E5 & _ & E3 & _).
-      destruct Hf as (G1 & _ & _ & G4 & G5); [unfold nowait; rewrite S1; apply B|].
       eapply Post_keep; try done; cbn; rewrite ?E3, ?E4, ?Hc1; try done.
       * rewrite mark_unl_holds, decide_False, E2 by done. done.
-      * rewrite E5, E1. rewrite S1 in G4, G5. unfold now in G1. rewrite S1 in G1.
-        split_and!; [apply G4|apply G5|done]; congruence.
+      * by rewrite E5.
+Qed.
+
+(** Unlock run in steps. Its first step (maybeRemoveRenewer): like [P_unlock], without the RPC *)
+Lemma P_unlock_begin cc j h i st :
+  cc_noauto cc = false → no_twin st → Pre cc j h st → misuse_at st (IUnlockBegin i) = false →
+  Post j (h_name h) (h_T h) (do_unlock_begin cc i st).
+Proof.
+  intros Hna N HP Hmis. pose proof HP as (B & Hc & Hcl & Hh & Hl & Hu & HT & r & Hr & L).
+  destruct (cs_holds st !! i) as [hi|] eqn:Hhi.
+  2: { rewrite do_unlock_begin_noop; [by eapply Post_same|]. intros h0. by rewrite Hhi. }
+  destruct (h_locked hi) eqn:Hli.
+  2: { rewrite do_unlock_begin_noop; [by eapply Post_same|]. intros h0. rewrite Hhi. by intros [= <-]. }
+  assert (h_unl hi = false) as Hui by (apply (misuse_unlock_unl st i hi (IUnlockBegin i)); auto).
+  destruct (decide (i = j)) as [->|Hij].
+  - assert (hi = h) as -> by congruence.
+    destruct (cs_crashed (do_unlock_begin cc j st)) as [c|] eqn:Hc1.
+    + destruct (do_unlock_begin_crashed cc j st c Hc Hc1) as (h0 & x & rx & _ & _ & _ & -> & Hrx & Hpx).
+      split_and!; rewrite ?Hc1; try done. intros [= ->]. unfold ren_of in Hrx. rewrite Hh in Hrx. cbn in Hrx.
+      assert (rx = r) as -> by congruence. by eapply lease_at_running.
+    + destruct (do_unlock_begin_unl cc j st h Hh Hl Hc1) as (h' & Hh' & Hu' & _).
+      split_and!; rewrite ?Hc1; try done. intros _. right. right. eauto.
+  - destruct (unlock_other_name cc j h i hi st N HP Hij Hhi Hli Hui) as [Hname Hmj].
+    eapply Post_keep; try done.
+    + intros E. destruct (do_unlock_begin_crashed cc i st _ Hc E) as (h0 & x & rx & _ & _ & _ & [=] & _).
+    + intros E. destruct (do_unlock_begin_crashed cc i st _ Hc E) as (h0 & x & rx & Hh0 & _ & Hm & [= <-] & _).
+      assert (h0 = hi) as -> by congruence. done.
+    + apply do_unlock_begin_holds_other; [congruence|]. intros h0 _ Hh0. assert (h0 = hi) as -> by congruence. done.
+    + rewrite do_unlock_begin_srv. apply srv_keep_refl.
+Qed.
+
+(** its second step (the RPC): the hold has [h_unl] already, so it is not hold j, and its key is another key *)
+Lemma P_unlock_send cc j h i st : Pre cc j h st → misuse_at st (IUnlockSend i) = false →
+  Post j (h_name h) (h_T h) (do_unlock_send i st).
+Proof.
+  intros HP Hmis. pose proof HP as (B & Hc & Hcl & Hh & Hl & Hu & HT & r & Hr & L).
+  unfold misuse_at in Hmis. apply orb_false_elim in Hmis as [_ Hmis].
+  destruct (cs_holds st !! i) as [hi|] eqn:Hhi; [|done]. apply negb_false_iff in Hmis.
+  assert (i ≠ j) as Hij by (intros ->; congruence).
+  destruct (h_locked hi) eqn:Hli.
+  2: { rewrite do_unlock_send_noop; [by eapply Post_same|]. intros h0. rewrite Hhi. by intros [= <-]. }
+  rewrite (do_unlock_send_locked i st hi Hhi Hli).
+  destruct (unlock_rpc_keep i hi st (h_name h) j) as (E4 & E2 & K); [apply B|by apply (b_key _ _ B)|done|].
+  eapply Post_keep; try done; rewrite ?E4, ?Hc; try done. by rewrite E2.
+Qed.
+
+(** its third step (the return): only the trace *)
+Lemma P_unlock_end cc j h i st : Pre cc j h st → Post j (h_name h) (h_T h) (do_unlock_end i st).
+Proof.
+  intros HP. pose proof HP as (_ & Hc & _). destruct (do_unlock_end_other i st) as (E1 & _ & E3 & E4 & _).
+  eapply Post_keep; try done; rewrite ?E4, ?Hc, ?E3, ?E1; done.
 Qed.
 
 (** the Lock / TryLock that creates hold j *)
@@ -675,6 +759,9 @@ Proof.
       - by eapply P_acquire.
       - by eapply P_acquire.
       - by eapply P_unlock.
+      - by eapply P_unlock_begin.
+      - by eapply P_unlock_send.
+      - by eapply P_unlock_end.
       - by eapply P_close.
       - by eapply P_advance.
       - by eapply P_hold.
